@@ -31,8 +31,18 @@ Not(o) == CASE o = "T" -> "F" [] o = "F" -> "T" [] OTHER -> o
 IsNum(v) == v.k \in {"int", "bool", "float"}
 IsIntLike(v) == v.k \in {"int", "bool"}
 IsSeqLike(v) == v.k \in {"list", "tuple"}
-N8(v) == IF v.k = "float" THEN v.n ELSE 8 * v.n      \* numeric value in eighths
+N8(v) == IF v.k = "float" THEN v.n ELSE 8 * v.n      \* numeric value in eighths (SMALL numbers only: |value| < 2^27)
 Abs(i) == IF i < 0 THEN -i ELSE i
+\* Numbers as pairs <<q, r>> = q + r/8 with q = floor(value), r \in 0..7: exact for every int TLC can hold
+\* (|n| < 2^31) and every float of the grid, without the multiplication by 8 that N8 needs.
+BigNum == 134217728                                       \* 2^27
+NumQ(v) == IF v.k = "float" THEN v.n \div 8 ELSE v.n
+NumR(v) == IF v.k = "float" THEN v.n % 8 ELSE 0
+NumP(v) == <<NumQ(v), NumR(v)>>
+PEq(a, b) == a[1] = b[1] /\ a[2] = b[2]
+PLt(a, b) == a[1] < b[1] \/ (a[1] = b[1] /\ a[2] < b[2])
+PSub(a, b) == IF a[2] >= b[2] THEN <<a[1] - b[1], a[2] - b[2]>> ELSE <<a[1] - b[1] - 1, a[2] - b[2] + 8>>
+PZero == <<0, 0>>
 
 TInt == 1  TFloat == 2  TStr == 3  TList == 4  TDict == 5  TBool == 6  TNone == 7
 TPath == 8  TTuple == 9
@@ -52,7 +62,7 @@ Hashable(v) == CASE v.k \in {"list", "map"} -> FALSE
 (***************************************************************************)
 RECURSIVE PyEq(_, _)
 PyEq(a, b) ==
-  CASE IsNum(a) /\ IsNum(b) -> N8(a) = N8(b)
+  CASE IsNum(a) /\ IsNum(b) -> PEq(NumP(a), NumP(b))
     [] a.k = "str" /\ b.k = "str" -> a.xs = b.xs
     [] a.k = "none" /\ b.k = "none" -> TRUE
     [] a.k = "type" /\ b.k = "type" -> a.n = b.n
@@ -104,9 +114,11 @@ SeqLt(s, t) == IF t = <<>> THEN FALSE ELSE IF s = <<>> THEN TRUE
 
 NumCmp(op, x, y) == CASE op = "lt" -> x < y [] op = "le" -> x <= y
                       [] op = "gt" -> x > y [] op = "ge" -> x >= y
+PCmp(op, x, y) == CASE op = "lt" -> PLt(x, y) [] op = "le" -> ~PLt(y, x)
+                    [] op = "gt" -> PLt(y, x) [] op = "ge" -> ~PLt(x, y)
 RECURSIVE PyCmp(_, _, _)
 PyCmp(op, a, b) ==
-  CASE IsNum(a) /\ IsNum(b) -> B(NumCmp(op, N8(a), N8(b)))
+  CASE IsNum(a) /\ IsNum(b) -> B(PCmp(op, NumP(a), NumP(b)))
     [] a.k = "str" /\ b.k = "str" ->
          B(CASE op = "lt" -> SeqLt(a.xs, b.xs) [] op = "le" -> ~SeqLt(b.xs, a.xs)
              [] op = "gt" -> SeqLt(b.xs, a.xs) [] op = "ge" -> ~SeqLt(a.xs, b.xs))
@@ -138,14 +150,20 @@ PyIn(x, c) ==
 (***************************************************************************)
 PyInRange(x, lo, hi) ==
   IF ~(IsIntLike(lo) /\ IsIntLike(hi)) THEN "E"
-  ELSE IF IsNum(x) THEN B(N8(x) % 8 = 0 /\ 8 * lo.n <= N8(x) /\ N8(x) < 8 * hi.n)
+  ELSE IF IsNum(x) THEN B(NumR(x) = 0 /\ lo.n <= NumQ(x) /\ NumQ(x) < hi.n)
   ELSE "F"
 
 (***************************************************************************)
 (* (a % b) == 0    (strings are %-free in the universe)                    *)
 (***************************************************************************)
 PyModIsZero(a, b) ==
-  CASE IsNum(a) /\ IsNum(b) -> IF N8(b) = 0 THEN "X" ELSE B(N8(a) % Abs(N8(b)) = 0)
+  CASE IsNum(a) /\ IsNum(b) ->
+         IF b.n = 0 THEN "X"
+         ELSE IF IsIntLike(a) /\ IsIntLike(b) THEN B(a.n % Abs(b.n) = 0)
+         ELSE IF Abs(NumQ(a)) < BigNum /\ Abs(NumQ(b)) < BigNum THEN B(N8(a) % Abs(N8(b)) = 0)
+         ELSE IF IsIntLike(a) THEN                                            \* big int % float: 8a mod e by doubling
+              LET e == Abs(b.n)  D(m) == (2 * m) % e IN B(D(D(D(a.n % e))) = 0)
+         ELSE B(a.n = 0)                                                       \* small float % big int
     [] a.k = "str" -> IF b.k \in {"list", "map"} \/ (b.k = "tuple" /\ b.xs = <<>>) THEN "F" ELSE "E"
     [] OTHER -> "E"
 
@@ -154,9 +172,14 @@ PyModIsZero(a, b) ==
 (***************************************************************************)
 PyApprox(x, v, tol) ==
   IF ~(IsNum(x) /\ IsNum(v)) THEN "E"
-  ELSE IF tol.k = "eps" THEN B(N8(x) = N8(v))
+  ELSE IF tol.k = "eps" THEN B(PEq(NumP(x), NumP(v)))
   ELSE IF ~IsNum(tol) THEN "E"
-  ELSE B(Abs(N8(x) - N8(v)) < N8(tol))
+  ELSE LET hi == IF PLt(NumP(x), NumP(v)) THEN NumP(v) ELSE NumP(x)
+           lo == IF PLt(NumP(x), NumP(v)) THEN NumP(x) ELSE NumP(v)
+           t == NumP(tol)
+       IN IF ~PLt(PZero, t) THEN "F"                                  \* |d| >= 0 >= tol
+          ELSE IF hi[1] < 0 \/ lo[1] >= 0 THEN B(PLt(PSub(hi, lo), t))  \* same sign: the difference fits
+          ELSE B(PLt(PSub(hi, t), lo))                                  \* hi >= 0 > lo: hi - tol < lo, no overflow
 
 (***************************************************************************)
 (* isinstance(x, classes): left to right, a non-type reached before a hit  *)
@@ -182,10 +205,12 @@ SplitOn(cs, d) ==
   IF \A i \in 1..Len(cs) : cs[i] # d THEN <<cs>>
   ELSE LET i == CHOOSE i \in 1..Len(cs) : cs[i] = d /\ \A j \in 1..(i - 1) : cs[j] # d
        IN <<SubSeq(cs, 1, i - 1)>> \o SplitOn(SubSeq(cs, i + 1, Len(cs)), d)
+\* the ASCII characters str.strip() and int() treat as white space: \t \n \v \f \r, FS GS RS US, space
+WhiteSpace == {9, 10, 11, 12, 13, 28, 29, 30, 31, 32}
 RECURSIVE StripL(_)
-StripL(cs) == IF cs # <<>> /\ Head(cs) \in {32, 10} THEN StripL(Tail(cs)) ELSE cs
+StripL(cs) == IF cs # <<>> /\ Head(cs) \in WhiteSpace THEN StripL(Tail(cs)) ELSE cs
 RECURSIVE StripR(_)
-StripR(cs) == IF cs # <<>> /\ cs[Len(cs)] \in {32, 10} THEN StripR(SubSeq(cs, 1, Len(cs) - 1)) ELSE cs
+StripR(cs) == IF cs # <<>> /\ cs[Len(cs)] \in WhiteSpace THEN StripR(SubSeq(cs, 1, Len(cs) - 1)) ELSE cs
 Strip(cs) == StripR(StripL(cs))
 StartsWith(cs, p) == Len(cs) >= Len(p) /\ SubSeq(cs, 1, Len(p)) = p
 
@@ -201,8 +226,14 @@ DigitsOk(ds) == /\ ds # <<>>
                 /\ \A i \in 1..Len(ds) : IsDigit(ds[i]) \/ ds[i] = 95
                 /\ IsDigit(ds[1]) /\ IsDigit(ds[Len(ds)])
                 /\ \A i \in 1..(Len(ds) - 1) : ~(ds[i] = 95 /\ ds[i + 1] = 95)
+\* int() strips only \t \n \v \f \r and space (not FS GS RS US, which str.strip() does strip) - checked against CPython
+IntSpace == {9, 10, 11, 12, 13, 32}
+RECURSIVE IStripL(_)
+IStripL(cs) == IF cs # <<>> /\ Head(cs) \in IntSpace THEN IStripL(Tail(cs)) ELSE cs
+RECURSIVE IStripR(_)
+IStripR(cs) == IF cs # <<>> /\ cs[Len(cs)] \in IntSpace THEN IStripR(SubSeq(cs, 1, Len(cs) - 1)) ELSE cs
 ParseInt(cs) ==
-  LET s == Strip(cs)
+  LET s == IStripR(IStripL(cs))
       neg == s # <<>> /\ Head(s) = 45
       ds == IF s # <<>> /\ Head(s) \in {43, 45} THEN Tail(s) ELSE s
   IN IF DigitsOk(ds) /\ Len(ds) <= 9
